@@ -1,8 +1,346 @@
-import AlgoVerif.Model.LedgerCore
-namespace Props.C22
-open AlgoVerif.Model.LedgerCore
+/-
+C22 — Asset supply is conserved and holder rules are enforced.
 
-/-- placeholder while the pipeline is brought up; replaced by the property theorems -/
-theorem empty_group_noop (P : Params) (x : Ctx) (s : EvalState) : evalGroup P x s [] = .ok s := rfl
+On `Model.LedgerCore`, which mirrors ledger/apply/asset.go (AssetConfig, takeOut, putIn, AssetTransfer, AssetFreeze) and the
+asset part of the cow line by line; the real code is tied to it on every run by the LedgerCore harness (profile c22).
+Quantification: every parameter set, every context (stack of parent layers over a base), every evaluator state satisfying the
+invariant, every transaction / group / sequence of groups of the modelled kinds.  `U` is any duplicate-free list of addresses
+containing the senders (holders are shown to stay inside `U`).
+
+The exceptions are the code's own and are part of the statements:
+* a transfer of amount 0 touches no holding and needs no opt-in and no unfrozen holding (`zero_amount_needs_nothing`);
+* a clawback (`AssetSender` set, sent by the asset's clawback address) ignores the frozen flag on both sides;
+* a close-out whose destination holds the asset's params — the creator — bypasses the frozen flag on both sides
+  (`frozen_blocks_close`, `close_to_creator_bypasses_freeze`);
+* after a destroy, zero-amount holdings of the destroyed asset may remain and can still be closed out.
+-/
+import AlgoVerif.Lemmas.LedgerCoreSupply
+namespace Props.C22
+open AlgoVerif.Model.LedgerCore AlgoVerif.Lemmas.LedgerCore
+
+/-- The invariant: holders are in `U`; for every existing asset the params sit at its creator and Σ holdings = total; params
+exist only at the creator of an existing asset; every holding of a destroyed / never created asset is 0; no asset id exceeds the
+txn counter. -/
+abbrev AssetInv := AlgoVerif.Lemmas.LedgerCore.AssetInv
+
+/-- `supply_conserved` (inductive step): the invariant survives every accepted group … -/
+theorem supply_conserved_group (P : Params) (x : Ctx) (s s' : EvalState) (g : List Txn) (U : List Addr)
+    (hU : U.Nodup) (hs : ∀ t ∈ g, t.sender ∈ U) (hI : AssetInv x s.top U (counterOf x s.top))
+    (h : evalGroup P x s g = .ok s') : AssetInv x s'.top U (counterOf x s'.top) :=
+  evalGroup_inv hU hs hI h
+
+/-- … hence every sequence of groups tried on an evaluator (failing ones dropped) … -/
+theorem supply_conserved_block (P : Params) (x : Ctx) (s : EvalState) (gs : List (List Txn)) (U : List Addr)
+    (hU : U.Nodup) (hs : ∀ g ∈ gs, ∀ t ∈ g, t.sender ∈ U) (hI : AssetInv x s.top U (counterOf x s.top)) :
+    AssetInv x (evalBlock P x s gs).top U (counterOf x (evalBlock P x s gs).top) :=
+  evalBlock_inv hU gs s hs hI
+
+/-- `supply_conserved`: in every state reachable from a ledger without assets by any sequence of groups, for every existing
+asset the holdings sum to its total supply (and the params are at the creator). -/
+theorem supply_conserved (P : Params) (b : Base) (hr : b.res = []) (hc : b.creators = []) (gs : List (List Txn)) (U : List Addr)
+    (hU : U.Nodup) (hs : ∀ g ∈ gs, ∀ t ∈ g, t.sender ∈ U) (i : AssetId) (cr : Addr) :
+    let s := evalBlock P ⟨[], b⟩ {} gs
+    creatorOf ⟨[], b⟩ s.top i = some cr →
+      ∃ p, paramsOf ⟨[], b⟩ s.top (cr, i) = some p ∧ supply ⟨[], b⟩ s.top U i = p.total := by
+  intro s hcr
+  have := evalBlock_inv (P := P) (x := ⟨[], b⟩) hU gs {} hs (inv_init b U _ hr hc)
+  exact this.live i cr hcr
+
+/-- holdings never leave `U`, so the sum over `U` is the sum over all accounts -/
+theorem holders_in_universe (P : Params) (x : Ctx) (s : EvalState) (gs : List (List Txn)) (U : List Addr)
+    (hU : U.Nodup) (hs : ∀ g ∈ gs, ∀ t ∈ g, t.sender ∈ U) (hI : AssetInv x s.top U (counterOf x s.top))
+    (a : Addr) (i : AssetId) (ha : a ∉ U) : holdingOf x (evalBlock P x s gs).top (a, i) = none := by
+  cases e : holdingOf x (evalBlock P x s gs).top (a, i) with
+  | none => rfl
+  | some hd => exact absurd ((evalBlock_inv hU gs s hs hI).closed a i hd e) ha
+
+/-- holdings of a destroyed asset are all zero -/
+theorem destroyed_asset_empty (P : Params) (x : Ctx) (s : EvalState) (gs : List (List Txn)) (U : List Addr)
+    (hU : U.Nodup) (hs : ∀ g ∈ gs, ∀ t ∈ g, t.sender ∈ U) (hI : AssetInv x s.top U (counterOf x s.top))
+    (i : AssetId) (hn : creatorOf x (evalBlock P x s gs).top i = none) (a : Addr) :
+    amountOf x (evalBlock P x s gs).top (a, i) = 0 :=
+  (evalBlock_inv hU gs s hs hI).gone i hn a
+
+/-! ### the structure of an asset transfer -/
+
+theorem assetTransfer_ok {P : Params} {x : Ctx} {l l' : Layer} {t : Txn} (h : assetTransfer P x l t = .ok l') :
+    ∃ src cb l1 l2 l3, xferSource x l t = .ok (src, cb) ∧ optIn P x l t src cb = .ok l1 ∧
+      takeOut x l1 src t.asset t.assetAmount cb = .ok l2 ∧ putIn x l2 t.assetReceiver t.asset t.assetAmount cb = .ok l3 ∧
+      assetClose x l3 t src cb = .ok l' := by
+  unfold assetTransfer at h
+  split at h
+  · cases h
+  · rename_i src cb hs
+    split at h
+    · cases h
+    · rename_i l1 h1
+      split at h
+      · cases h
+      · rename_i l2 h2
+        split at h
+        · cases h
+        · rename_i l3 h3
+          exact ⟨src, cb, l1, l2, l3, hs, h1, h2, h3, h⟩
+
+/-- a clawback is a transfer with `AssetSender` set that was sent by the asset's (non-zero) clawback address -/
+def IsClawback (x : Ctx) (l : Layer) (t : Txn) : Prop :=
+  t.assetSender ≠ 0 ∧ ∃ p cr, getParams x l t.asset = .ok (p, cr) ∧ p.clawback ≠ 0 ∧ t.sender = p.clawback
+
+theorem xferSource_ok {x : Ctx} {l : Layer} {t : Txn} {src : Addr} {cb : Bool} (h : xferSource x l t = .ok (src, cb)) :
+    (cb = false ∧ src = t.sender ∧ t.assetSender = 0) ∨ (cb = true ∧ src = t.assetSender ∧ IsClawback x l t) := by
+  unfold xferSource at h
+  split at h
+  · rename_i h0; cases h; exact Or.inl ⟨rfl, rfl, h0⟩
+  · rename_i h0
+    split at h
+    · cases h
+    · rename_i p cr hg
+      split at h
+      · cases h
+      · rename_i hc
+        cases h
+        refine Or.inr ⟨rfl, rfl, h0, p, cr, hg, ?_, ?_⟩
+        · intro e; exact hc (Or.inl e)
+        · apply Classical.byContradiction; intro e; exact hc (Or.inr e)
+
+/-- `optin_required` + `frozen_blocks` for the transfer part: an accepted transfer of a positive amount finds a holding on both
+sides (both parties opted in), and if either holding is frozen the transaction is a clawback. -/
+theorem transfer_rules (P : Params) (x : Ctx) (l l' : Layer) (t : Txn) (h : assetTransfer P x l t = .ok l')
+    (hpos : 0 < t.assetAmount) :
+    ∃ src hs hr, (src = if t.assetSender = 0 then t.sender else t.assetSender) ∧
+      holdingOf x l (src, t.asset) = some hs ∧ holdingOf x l (t.assetReceiver, t.asset) = some hr ∧
+      t.assetAmount ≤ hs.amount ∧ ((hs.frozen = true ∨ hr.frozen = true) → IsClawback x l t) := by
+  obtain ⟨src, cb, l1, l2, l3, hsrc, h1, h2, h3, _⟩ := assetTransfer_ok h
+  -- a positive amount is not an opt-in
+  have hl1 : l1 = l := by
+    unfold optIn at h1
+    split at h1
+    · rename_i hc; omega
+    · cases h1; rfl
+  subst hl1
+  rcases takeOut_ok h2 with ⟨h0, _⟩ | ⟨_, hs, hes, hfs, hle, rfl⟩
+  · omega
+  rcases putIn_ok h3 with ⟨h0, _⟩ | ⟨_, hr2, her, hfr, _⟩
+  · omega
+  -- the receiver's holding before the take-out has the same frozen flag
+  have hrcv : ∃ hr, holdingOf x l1 (t.assetReceiver, t.asset) = some hr ∧ hr.frozen = hr2.frozen := by
+    rw [holdingOf_putHoldingD _ _ _ _ _ (by simp)] at her
+    split at her
+    · rename_i e
+      have : t.assetReceiver = src := by cases e; rfl
+      simp only [Delta.toOption, Option.some.injEq] at her
+      exact ⟨hs, by rw [this]; exact hes, by rw [← her]⟩
+    · exact ⟨hr2, her, rfl⟩
+  obtain ⟨hr, her', hfeq⟩ := hrcv
+  have hsrcEq : (src = if t.assetSender = 0 then t.sender else t.assetSender) ∧ (cb = true → IsClawback x l1 t) := by
+    rcases xferSource_ok hsrc with ⟨hcb, hs', h0⟩ | ⟨hcb, hs', hcl⟩
+    · exact ⟨by rw [if_pos h0]; exact hs', fun e => by rw [hcb] at e; cases e⟩
+    · exact ⟨by rw [if_neg hcl.1]; exact hs', fun _ => hcl⟩
+  refine ⟨src, hs, hr, hsrcEq.1, hes, her', hle, ?_⟩
+  rintro (hf | hf)
+  · exact hsrcEq.2 (hfs hf)
+  · exact hsrcEq.2 (hfr (by rw [← hfeq]; exact hf))
+
+/-- `optin_required` as a rejection: a positive amount to or from an account that has not opted in is rejected -/
+theorem optin_required (P : Params) (x : Ctx) (l : Layer) (t : Txn) (hpos : 0 < t.assetAmount)
+    (hno : holdingOf x l (if t.assetSender = 0 then t.sender else t.assetSender, t.asset) = none
+           ∨ holdingOf x l (t.assetReceiver, t.asset) = none) :
+    ∀ l', assetTransfer P x l t ≠ .ok l' := by
+  intro l' h
+  obtain ⟨src, hs, hr, hsrc, e1, e2, _⟩ := transfer_rules P x l l' t h hpos
+  subst hsrc
+  rcases hno with e | e
+  · rw [e] at e1; cases e1
+  · rw [e] at e2; cases e2
+
+/-- `frozen_blocks` as a rejection: a positive amount out of or into a frozen holding, not sent as a clawback, is rejected -/
+theorem frozen_blocks (P : Params) (x : Ctx) (l : Layer) (t : Txn) (hpos : 0 < t.assetAmount) (hncb : t.assetSender = 0)
+    (hs hr : Holding) (e1 : holdingOf x l (t.sender, t.asset) = some hs) (e2 : holdingOf x l (t.assetReceiver, t.asset) = some hr)
+    (hf : hs.frozen = true ∨ hr.frozen = true) : ∀ l', assetTransfer P x l t ≠ .ok l' := by
+  intro l' h
+  obtain ⟨src, hs', hr', hsrc, e1', e2', _, hcl⟩ := transfer_rules P x l l' t h hpos
+  rw [if_pos hncb] at hsrc
+  subst hsrc
+  rw [e1] at e1'; cases e1'
+  rw [e2] at e2'; cases e2'
+  exact (hcl hf).1 hncb
+
+/-- `frozen_blocks` for the close-out part: closing a positive remainder needs a holding at the destination, and if the closed
+holding or the destination holding is frozen the destination holds the asset's params (it is the creator). -/
+theorem frozen_blocks_close (x : Ctx) (l l' : Layer) (t : Txn) (src : Addr) (cb : Bool) (hct : t.assetCloseTo ≠ 0)
+    (h : assetClose x l t src cb = .ok l') :
+    cb = false ∧ paramsOf x l (src, t.asset) = none ∧
+    ∃ hs, holdingOf x l (src, t.asset) = some hs ∧
+      (0 < hs.amount → ∃ l1 hd, takeOut x l src t.asset hs.amount (paramsOf x l (t.assetCloseTo, t.asset)).isSome = .ok l1 ∧
+        holdingOf x l1 (t.assetCloseTo, t.asset) = some hd ∧
+        ((hs.frozen = true ∨ hd.frozen = true) → (paramsOf x l (t.assetCloseTo, t.asset)).isSome = true)) := by
+  unfold assetClose at h
+  rw [if_neg hct] at h
+  split at h
+  · cases h
+  · rename_i hcb
+    simp only at h
+    split at h
+    · cases h
+    · split at h
+      · cases h
+      · rename_i hnp
+        split at h
+        · cases h
+        · rename_i hs hes
+          have hcbf : cb = false := by
+            cases cb with
+            | false => rfl
+            | true => exact absurd rfl hcb
+          have hpn : paramsOf x l (src, t.asset) = none := by
+            cases e : paramsOf x l (src, t.asset) with
+            | none => rfl
+            | some p => rw [e] at hnp; exact absurd rfl hnp
+          refine ⟨hcbf, hpn, hs, hes, ?_⟩
+          intro hpos
+          split at h
+          · cases h
+          · rename_i l1 h1
+            split at h
+            · cases h
+            · rename_i l2 h2
+              rcases takeOut_ok h1 with ⟨h0, _⟩ | ⟨_, hs', hes', hfs, _, _⟩
+              · omega
+              rcases putIn_ok h2 with ⟨h0, _⟩ | ⟨_, hd, hed, hfd, _⟩
+              · omega
+              rw [hes] at hes'; cases hes'
+              refine ⟨l1, hd, h1, hed, ?_⟩
+              rintro (hf | hf)
+              · exact hfs hf
+              · exact hfd hf
+
+/-- with the invariant, "holds the params of the asset" means "is the creator" -/
+theorem params_holder_is_creator (x : Ctx) (l : Layer) (U : List Addr) (n : Nat) (hI : AssetInv x l U n) (a : Addr) (i : AssetId)
+    (h : (paramsOf x l (a, i)).isSome = true) : creatorOf x l i = some a := by
+  cases e : paramsOf x l (a, i) with
+  | none => rw [e] at h; cases h
+  | some p => exact hI.owner a i p e
+
+/-- `destroy_requires_all`: an accepted destroy (asset config with empty params on an existing asset) was sent by the asset's
+non-zero manager, and the creator holds the entire supply … -/
+theorem destroy_requires_all (P : Params) (x : Ctx) (l l' : Layer) (t : Txn) (ctr : Nat)
+    (ha : t.asset ≠ 0) (hd : t.params = AssetParams.empty) (h : assetConfig P x l t ctr = .ok l') :
+    ∃ p cr, getParams x l t.asset = .ok (p, cr) ∧ p.manager ≠ 0 ∧ t.sender = p.manager ∧
+      amountOf x l (cr, t.asset) = p.total ∧ creatorOf x l' t.asset = none := by
+  unfold assetConfig at h
+  simp only at h
+  rw [if_neg ha] at h
+  split at h
+  · cases h
+  · rename_i p cr hg
+    split at h
+    · cases h
+    · rename_i hm
+      split at h
+      · cases h
+      · split at h
+        · cases h
+        · split at h
+          · cases h
+          · rename_i hall
+            split at h
+            · cases h
+            · cases h
+              refine ⟨p, cr, hg, ?_, ?_, by simpa using hall, ?_⟩
+              · intro e; exact hm (Or.inl e)
+              · apply Classical.byContradiction; intro e; exact hm (Or.inr e)
+              · rw [creatorOf_putParamsD, creatorOf_putHoldingD, creatorOf_putCreatable]; simp
+
+/-- … so that (by the invariant) nobody else holds any of it. -/
+theorem destroy_others_hold_nothing (P : Params) (x : Ctx) (l l' : Layer) (t : Txn) (ctr : Nat) (U : List Addr) (n : Nat)
+    (hU : U.Nodup) (hI : AssetInv x l U n)
+    (ha : t.asset ≠ 0) (hd : t.params = AssetParams.empty) (h : assetConfig P x l t ctr = .ok l') :
+    ∃ cr, creatorOf x l t.asset = some cr ∧ ∀ a, a ≠ cr → amountOf x l (a, t.asset) = 0 := by
+  obtain ⟨p, cr, hg, _, _, hall, _⟩ := destroy_requires_all P x l l' t ctr ha hd h
+  obtain ⟨hcr, hp⟩ := getParams_ok hg
+  refine ⟨cr, hcr, ?_⟩
+  obtain ⟨p', hp', hsup⟩ := hI.live t.asset cr hcr
+  rw [hp] at hp'; cases hp'
+  intro a hne
+  by_cases haU : a ∈ U
+  · by_cases hc' : cr ∈ U
+    · exact others_zero_of_sum_eq hU (fun b => amountOf x l (b, t.asset)) hc' (by rw [hall]; exact hsup) a haU hne
+    · have h0 : holdingOf x l (cr, t.asset) = none := by
+        cases e : holdingOf x l (cr, t.asset) with
+        | none => rfl
+        | some hd' => exact absurd (hI.closed cr t.asset hd' e) hc'
+      rw [amountOf_none h0] at hall
+      exact all_zero_of_sum_zero (fun b => amountOf x l (b, t.asset)) (by have := hsup; unfold supply at this; omega) a haU
+  · cases e : holdingOf x l (a, t.asset) with
+    | none => exact amountOf_none e
+    | some hd' => exact absurd (hI.closed a t.asset hd' e) haU
+
+/-- a destroy while somebody else holds part of the supply is rejected -/
+theorem destroy_rejected_when_held (P : Params) (x : Ctx) (l : Layer) (t : Txn) (ctr : Nat) (p : AssetParams) (cr : Addr)
+    (ha : t.asset ≠ 0) (hd : t.params = AssetParams.empty) (hg : getParams x l t.asset = .ok (p, cr))
+    (hne : amountOf x l (cr, t.asset) ≠ p.total) : ∀ l', assetConfig P x l t ctr ≠ .ok l' := by
+  intro l' h
+  obtain ⟨p', cr', hg', _, _, hall, _⟩ := destroy_requires_all P x l l' t ctr ha hd h
+  rw [hg] at hg'; cases hg'
+  exact hne hall
+
+/-! ### the code's exceptions, stated -/
+
+/-- zero-amount moves touch nothing: no opt-in and no unfrozen holding is needed -/
+theorem zero_amount_needs_nothing (x : Ctx) (l : Layer) (a : Addr) (i : AssetId) (b : Bool) :
+    takeOut x l a i 0 b = .ok l ∧ putIn x l a i 0 b = .ok l := ⟨rfl, rfl⟩
+
+/-- clawback ignores freeze: with the bypass set the frozen flag is not consulted -/
+theorem clawback_ignores_freeze (x : Ctx) (l : Layer) (a : Addr) (i : AssetId) (amt : Nat) (hd : Holding)
+    (he : holdingOf x l (a, i) = some hd) (hpos : amt ≠ 0) (hle : amt ≤ hd.amount) :
+    takeOut x l a i amt true = .ok (putHoldingD x l (a, i) (.val { hd with amount := hd.amount - amt })) := by
+  unfold takeOut
+  rw [if_neg hpos, he]
+  simp only
+  rw [if_neg (by simp), if_neg (by omega)]
+
+/-- close-to-creator bypasses freeze: the bypass flag of the close-out is "the destination holds the asset's params" -/
+theorem close_to_creator_bypasses_freeze (x : Ctx) (l : Layer) (a : Addr) (i : AssetId) (amt : Nat) (hd : Holding)
+    (he : holdingOf x l (a, i) = some hd) (hfr : hd.frozen = true) (hpos : amt ≠ 0) (hle : amt ≤ hd.amount) :
+    (takeOut x l a i amt true).isOk = true ∧ takeOut x l a i amt false = .error .frozen := by
+  constructor
+  · rw [clawback_ignores_freeze x l a i amt hd he hpos hle]; rfl
+  · unfold takeOut
+    rw [if_neg hpos, he]
+    simp only
+    rw [if_pos (by simp [hfr])]
+
+/-- opting in needs the asset to exist -/
+theorem optin_needs_asset (P : Params) (x : Ctx) (l : Layer) (t : Txn) (src : Addr)
+    (h0 : t.assetAmount = 0) (hr : t.assetReceiver = src) (hn : holdingOf x l (src, t.asset) = none)
+    (hc : creatorOf x l t.asset = none) : optIn P x l t src false = .error .noAsset := by
+  unfold optIn
+  rw [if_pos ⟨h0, hr, rfl⟩, hn]
+  simp only [getParams, hc]
+
+/-! ### non-vacuity: create (total 100), opt-in, transfer 40, freeze the receiver, a further transfer is rejected, the clawback
+address takes 10 back, destroy is rejected while account 2 holds 30, account 2 closes out to the creator although frozen,
+destroy succeeds -/
+
+def exBase : Base := { accts := [(1, { bal := 5000000 }), (2, { bal := 5000000 }), (7, { status := .notPart, bal := 100000 })] }
+def hdr (k : Kind) (snd note : Nat) : Txn := { kind := k, sender := snd, fee := 1000, fv := 1, lv := 10, note := note }
+def exCreate : Txn := { hdr .acfg 1 1 with params := ⟨100, 0, false, 1, 0, 1, 1⟩ }
+def exOptIn : Txn := { hdr .axfer 2 2 with asset := 1, assetReceiver := 2 }
+def exSend : Txn := { hdr .axfer 1 3 with asset := 1, assetAmount := 40, assetReceiver := 2 }
+def exFreeze : Txn := { hdr .afrz 1 4 with asset := 1, freezeAccount := 2, frozen := true }
+def exSendFrozen : Txn := { hdr .axfer 2 5 with asset := 1, assetAmount := 5, assetReceiver := 1 }
+def exClaw : Txn := { hdr .axfer 1 6 with asset := 1, assetAmount := 10, assetSender := 2, assetReceiver := 1 }
+def exDestroy (n : Nat) : Txn := { hdr .acfg 1 n with asset := 1 }
+def exCloseOut : Txn := { hdr .axfer 2 8 with asset := 1, assetReceiver := 0, assetCloseTo := 1 }
+
+def exRun : EvalState :=
+  evalBlock {} ⟨[], exBase⟩ {} [[exCreate], [exOptIn], [exSend], [exFreeze], [exSendFrozen], [exClaw], [exDestroy 7], [exCloseOut]]
+
+example : [0, 1, 2, 7].Nodup := by decide
+example : exBase.res = [] ∧ exBase.creators = [] := ⟨rfl, rfl⟩
+example : exRun.payset.length = 6 := by decide
+example : supply ⟨[], exBase⟩ exRun.top [0, 1, 2, 7] 1 = 100 ∧ amountOf ⟨[], exBase⟩ exRun.top (1, 1) = 100
+    ∧ holdingOf ⟨[], exBase⟩ exRun.top (2, 1) = none := by decide
+example : creatorOf ⟨[], exBase⟩ (evalBlock {} ⟨[], exBase⟩ exRun [[exDestroy 9]]).top 1 = none := by decide
 
 end Props.C22
